@@ -174,6 +174,15 @@ def _shape_cases(tier, rng):
         yield {"spec": spec, "input_shapes": ins, "internal": internal, "fault": None}
         # single-fault mutations of the call
         names = list(ins)
+        if len(names) > 1:  # shapes are looked up by name: the order of the dict is immaterial
+            order = names[:]
+            rng.shuffle(order)
+            if rng.random() < 0.5:
+                order.reverse()
+            yield {"spec": spec, "input_shapes": {k: ins[k] for k in reversed(names)}, "internal": internal, "fault": None}
+            n1 = rng.choice(names)
+            rev = {k: ins[k] for k in reversed(names)}
+            yield {"spec": spec, "input_shapes": {**rev, n1: rev[n1] + (2,)}, "internal": internal, "fault": "rank+"}
         if names:
             n0 = rng.choice(names)
             yield {"spec": spec, "input_shapes": {**ins, n0: ins[n0] + (2,)}, "internal": internal, "fault": "rank+"}
@@ -278,7 +287,11 @@ def _check_malformed(case):
         bad.append(f"constructor accepts malformed spec ({case['class']})")
     except ValueError:
         pass
-    if case["class"] != "non-identifier-name":  # names that the tokenizer cannot even express are not demanded
+    # strings: names with characters outside \w (e.g. 'y-z') cannot be expressed to the tokenizer at all and are not
+    # demanded; a name (or scope part) that starts with a digit is a token, and must be rejected like in the constructor
+    names = [n for n, _ in spec["inputs"] + spec["outputs"]]
+    tokenizable = all(part.replace("_", "a").isalnum() for n in names for part in n.split("."))
+    if case["class"] != "non-identifier-name" or tokenizable:
         try:
             MapSpec.from_string(ref.canonical_str(spec))
             bad.append(f"from_string accepts malformed spec ({case['class']}): {ref.canonical_str(spec)!r}")
